@@ -192,8 +192,11 @@ def check_config(ctx, cfg):
         if hasattr(bus, r_):
             resp.append(V(getattr(bus, r_)) == orall(selected_resp[r_]))
     ctx.prove("response_relay", z3.And(*resp), assume_quiet, frames=[f0], known_key=kk("response_relay"))
+    if subs and adr is not None:
+        st0, sp0, _ = ranges[id(subs[0].memory_map)]
+        if sp0 - st0 < (1 << mapw):
+            ctx.canary("cyc_broadcast", V(subs[0].cyc) == I(bus.cyc))
     if subs:
-        ctx.canary("cyc_broadcast", V(subs[0].cyc) == I(bus.cyc))
         ctx.sat("quiet_assumption_satisfiable", z3.And(*assume_quiet, I(bus.cyc) == 1, match[0]))
 
 
